@@ -274,11 +274,32 @@ fn cmp_line<OS: OrdStrat>(specs: &[RouteSpec]) -> String {
     if a == b { a } else { format!("{} | shared {}", a, b) }
 }
 
+/// (tie coverage) the other public ways to the same comparison: the named constructors `rfc4271` / `skip_med`,
+/// the strategy conversions `into_strat` / `from_strat` (a converted route compares as one built for that strategy),
+/// the accessors `tiebreakers` / `pa_map` / `inner`, and `preferred` (= the smaller of two)
+fn alt_ok<OS: OrdStrat>(built: &[(PaMap, TiebreakerInfo)], maps: &[&PaMap]) -> bool {
+    use routecore::bgp::path_selection::preferred;
+    let mk = |i: usize| OrdRoute::<OS>::try_new(maps[i], built[i].1).unwrap();
+    let (a, b) = (mk(0), mk(1));
+    if a.tiebreakers() != built[0].1 || !std::ptr::eq(a.pa_map(), maps[0]) || a.inner() != (built[0].1, maps[0]) { return false; }
+    let (Ok(ra), Ok(rb)) = (OrdRoute::rfc4271(maps[0], built[0].1), OrdRoute::rfc4271(maps[1], built[1].1)) else { return false };
+    let (Ok(sa), Ok(sb)) = (OrdRoute::skip_med(maps[0], built[0].1), OrdRoute::skip_med(maps[1], built[1].1)) else { return false };
+    let (ca, cb): (OrdRoute<Rfc4271>, OrdRoute<Rfc4271>) = (mk(0).into_strat(), mk(1).into_strat());
+    let (da, db): (OrdRoute<SkipMed>, OrdRoute<SkipMed>) = (OrdRoute::from_strat(mk(0)), OrdRoute::from_strat(mk(1)));
+    if ca.cmp(&cb) != ra.cmp(&rb) || da.cmp(&db) != sa.cmp(&sb) { return false; }
+    // back to the strategy of the request: the same answer as the routes built for it
+    let (ea, eb): (OrdRoute<OS>, OrdRoute<OS>) = (ca.into_strat(), OrdRoute::from_strat(db));
+    if ea.cmp(&eb) != a.cmp(&b) { return false; }
+    let p = preferred(mk(0), mk(1));
+    let want = if a.cmp(&b) == Ordering::Greater { 1 } else { 0 };
+    std::ptr::eq(p.pa_map(), maps[want]) && p.tiebreakers() == built[want].1
+}
+
 fn cmp_on<OS: OrdStrat>(built: &[(PaMap, TiebreakerInfo)], maps: &[&PaMap]) -> String {
     let rs: Vec<OrdRoute<OS>> = built.iter().zip(maps).map(|((_, t), m)| OrdRoute::try_new(*m, *t).unwrap()).collect();
     match rs.len() {
-        2 => format!("{} {} {} {}", ord(rs[0].cmp(&rs[1])), if rs[0] == rs[1] { "same" } else { "diff" },
-            ord(rs[1].cmp(&rs[0])), ord(rs[0].partial_cmp(&rs[1]).unwrap())),
+        2 => format!("{} {} {} {}{}", ord(rs[0].cmp(&rs[1])), if rs[0] == rs[1] { "same" } else { "diff" },
+            ord(rs[1].cmp(&rs[0])), ord(rs[0].partial_cmp(&rs[1]).unwrap()), if alt_ok::<OS>(built, maps) { "" } else { " ALT-BAD" }),
         _ => format!("{} {} {}", ord(rs[0].cmp(&rs[1])), ord(rs[1].cmp(&rs[2])), ord(rs[0].cmp(&rs[2]))),
     }
 }
@@ -586,6 +607,7 @@ impl Prop for C10 {
     fn oracle(&self, line: &str, reply: &str) -> Result<(), String> {
         if reply == "bad-op" { return Ok(()); }
         if reply == "panic" { return Err("panic".into()); }
+        if reply.contains("ALT-BAD") { return Err("the named constructors / strategy conversions / accessors / `preferred` disagree with try_new + cmp".into()); }
         // the same routes on separate and on shared attribute maps: each presentation is judged
         if let Some((own, shared)) = reply.split_once(" | shared ") {
             self.oracle(line, own)?;
